@@ -142,6 +142,62 @@ def r1_line_comment_discipline(w):
                           'be swallowed by it' % (last(b.short), K, lf, bad), b.loc())
                 else:
                     r.ok(cons, '; '.join(sorted(how)))
+    # converters that iterate a SUB-sequence of the children (edges stripped or peeled off): the line-breaking space after a line comment
+    # may be among the excluded children, so the comment can be the last item of the iteration.  Evaluated on <LineComment, END>: in the
+    # document the converter returns, a hard line break must come between the comment and the next token (e.g. the closing delimiter).
+    n_sub = 0
+    for b, i, kinds in se.converters():
+        if not se.has_node_loop(b):
+            continue
+        if not _iterates_subsequence(w, b):
+            continue
+        for K in kinds:
+            if 'LineComment' not in grammar.CHILDREN.get(K, []):
+                continue
+            n_sub += 1
+            # what follows the comment in the source, outside the iterated sub-sequence, is a line-breaking space
+            peel = lambda interp, m, f, t, which: [Node('peel', 'Space', True)] if which == 'split_last' else [Node('peel', 'Space', False), None]
+            peels = any(re.search(r'::(split_first|split_last)$', callee_path(t) or '') for _, t in b.calls())
+            res = evaluate_sequence(w, b, i, K, [LC, 'END'], with_wholes=True, edge_hint={'last': LC}, peel=peel if peels else None)
+            cons = {'converter': last(b.short), 'parent': K, 'sequence': '<LineComment, END>'}
+            if res is None:
+                r.bad(cons, '%s|%s|end|not-evaluated' % (last(b.short), K), 'the <LineComment, END> evaluation of %s exceeded its bounds' % b.short, b.loc())
+                continue
+            bad = None
+            n_paths = 0
+            for item in res:
+                if not (len(item) > 3 and isinstance(item[3], tuple) and item[3] and item[3][0] == 'ended'):
+                    continue
+                result = item[3][1]
+                if not isinstance(result, Doc):
+                    continue
+                for toks in _linearise(result):
+                    n_paths += 1
+                    idx = [k for k, tk in enumerate(toks) if tk[0] == 'conv' and tk[1].endswith('convert_comment') and isinstance(tk[2], Node) and tk[2].kind == 'LineComment']
+                    if not idx:
+                        continue
+                    for tk in toks[idx[-1] + 1:]:
+                        if tk[0] == 'hardline':
+                            break
+                        if tk[0] in ('nil', 'space', 'line', 'line_', 'softline', 'softline_'):
+                            continue
+                        if tk[0] == 'top':
+                            break        # unknown document: undecided here
+                        bad = 'the returned document continues with %s right after the comment (only %s in between)' % (
+                            tk[1] if tk[0] == 'lit' else tk[0], [x[0] for x in toks[idx[-1] + 1:toks.index(tk)]] or 'nothing')
+                        break
+                    if bad:
+                        break
+                if bad:
+                    break
+            if bad:
+                r.bad(cons, '%s|%s|end' % (last(b.short), K),
+                      '%s (%s node) iterates only part of the children; when a line comment is the last child it keeps (the line break after it is among the stripped ones) %s: '
+                      'the closing token is printed on the comment\'s line and swallowed by it' % (last(b.short), K, bad), b.loc())
+            else:
+                r.ok(cons, 'a hard line break follows a final line comment on all %d evaluated layouts' % n_paths)
+    if n_sub < 2:
+        raise AnchorMissing('converters iterating a sub-sequence of children (found %d)' % n_sub)
     if n_sites < 30:
         raise AnchorMissing('comment-emitting sites for the sequence rule (found %d)' % n_sites)
     # printers: Linebreak items become hard lines
@@ -169,6 +225,57 @@ def r1_line_comment_discipline(w):
         else:
             r.bad(cons, key, why, loc)
     return r
+
+
+SUBSEQ = re.compile(r'(slice::<impl \[T\]>::(get|split_first|split_last|split_at)|Index<.*Range.*>>::index|Iterator>?::(position|rposition))$')
+
+
+def _iterates_subsequence(w, b):
+    """does the converter (closures included) cut a sub-range out of a children slice before iterating it?"""
+    ids = [b.id] + [x.id for x in w.fn_bodies(w.core) if x.def_kind == 'Closure' and x.id.startswith(b.id + '::')]
+    for bid in ids:
+        for bi, t in w.bodies[bid].calls():
+            p = callee_path(t) or ''
+            cs = (t.get('callee') or {}).get('s', '')
+            if SUBSEQ.search(p) or SUBSEQ.search(cs):
+                if 'SyntaxNode' in cs or 'SyntaxNode' in str([w.bodies[bid].locals[a['p']['l']]['ty']['s'] for a in t['args'] if a['o'] in ('copy', 'move')]):
+                    return True
+    return False
+
+
+DELIMS = {'parens': ('(', ')'), 'brackets': ('[', ']'), 'braces': ('{', '}'), 'angles': ('<', '>'), 'double_quotes': ('"', '"'), 'single_quotes': ("'", "'")}
+
+
+def _linearise(doc, cap=16):
+    """print-order token sequences of an abstract document (delimiters of parens()/enclose() materialised; one sequence per choice of
+    flat_alt alternatives, at most `cap`)"""
+    seqs = [[]]
+    for a in doc.atoms:
+        if a[0] == 'wrap':
+            name = a[1]
+            if name == 'enclose':
+                parts = [a[3], a[2], a[4]]
+            else:
+                parts = [a[2]]
+            inner = [[]]
+            for part in parts:
+                sub = _linearise(part, cap) if isinstance(part, Doc) else [[('top',)]]
+                inner = [x + y for x in inner for y in sub][:cap]
+            if name in DELIMS:
+                o, c = DELIMS[name]
+                inner = [[('lit', o)] + x + [('lit', c)] for x in inner]
+            seqs = [x + y for x in seqs for y in inner][:cap]
+        elif a[0] == 'alt':
+            subs = []
+            for part in a[1:3]:
+                subs += _linearise(part, cap) if isinstance(part, Doc) else [[('top',)]]
+            seqs = [x + y for x in seqs for y in subs][:cap]
+        elif a[0] == 'text':
+            x = a[1]
+            seqs = [s_ + [('lit', x.v) if isinstance(x, Const) else ('text', x)] for s_ in seqs]
+        else:
+            seqs = [s_ + [a] for s_ in seqs]
+    return seqs
 
 
 def _list_printer_obligations(w, mechanisms=('A',)):
